@@ -37,8 +37,8 @@ func (i c13In) salt() []byte {
 func genC13(t *rapid.T) c13Case {
 	a := c13In{
 		Key:     rapid.IntRange(0, 3).Draw(t, "key"),
-		Ctx:     rapid.OneOf(rapid.SampledFrom([]string{"", "a", "\x00", "ctx v1"}), rapid.StringN(0, 40, 80)).Draw(t, "ctx"),
-		Salt:    rapid.SliceOfN(rapid.Byte(), 0, 40).Draw(t, "salt"),
+		Ctx:     rapid.OneOf(rapid.SampledFrom([]string{"", "a", "\x00", "ctx v1"}), rapid.StringN(0, 40, 80), rapid.StringN(100, 300, 600)).Draw(t, "ctx"),
+		Salt:    rapid.OneOf(rapid.SliceOfN(rapid.Byte(), 0, 40), rapid.SliceOfN(rapid.Byte(), 41, 300)).Draw(t, "salt"),
 		SaltNil: rapid.IntRange(0, 4).Draw(t, "saltnil") == 0,
 	}
 	b := a
@@ -51,7 +51,13 @@ func genC13(t *rapid.T) c13Case {
 		b.Ctx = a.Ctx + rapid.SampledFrom([]string{"x", "\x00", " "}).Draw(t, "cs")
 	case 3:
 		b.SaltNil = false
-		b.Salt = append(append(vstat.Bytes{}, a.salt()...), byte(rapid.IntRange(0, 255).Draw(t, "sb")))
+		if len(a.salt()) > 0 && rapid.Bool().Draw(t, "lastbyte") {
+			// same length, differing only in the last byte
+			b.Salt = append(vstat.Bytes{}, a.salt()...)
+			b.Salt[len(b.Salt)-1] ^= byte(1 + rapid.IntRange(0, 254).Draw(t, "sx"))
+		} else {
+			b.Salt = append(append(vstat.Bytes{}, a.salt()...), byte(rapid.IntRange(0, 255).Draw(t, "sb")))
+		}
 	case 4:
 		b.SaltNil = !a.SaltNil
 		b.Salt = vstat.Bytes{}
